@@ -2,6 +2,7 @@
   C13 — Immunity cache is a bounded FIFO map with exact accounting.
 -/
 import SV.Immunity.Proofs
+import SV.GenProofs
 namespace SV.Props.C13
 open SV SV.Immunity
 
@@ -29,5 +30,13 @@ theorem remove_withdraws_immunity (c : Chunk) (k : Bytes) :
 theorem immunize_gate (c : Cache) (keys : List Bytes) (h : c.countImmune + keys.length > c.cfg.maxNumItems) :
     c.immunizeKeys keys = (c, 0, 0) := by
   unfold Cache.immunizeKeys; simp [h]
+
+/-! ### tie by translation: the source's own leaf logic (regenerated into SV/Generated/Funcs.lean on every run) IS the model's -/
+theorem source_capacity_test_is_the_models (cfg : ChunkCfg) (c : Chunk) :
+    c.exceeded cfg = Gen.chunkExceeded c.items.length cfg.maxNumItems c.numBytes cfg.maxNumBytes := GenProofs.chunkExceeded_eq cfg c
+theorem source_chunk_config_is_the_models (c : Config) :
+    ((c.chunkCfg.maxNumItems : Nat) : Int) = Gen.chunkMaxNumItems c.numChunks c.maxNumItems ∧
+    ((c.chunkCfg.maxNumBytes : Nat) : Int) = Gen.chunkMaxNumBytes c.numChunks c.maxNumBytes ∧
+    ((c.chunkCfg.numToEvict : Nat) : Int) = Gen.chunkNumItemsToEvict c.numChunks c.numItemsToEvict := GenProofs.chunkCfg_eq c
 
 end SV.Props.C13
